@@ -8,7 +8,7 @@ PKG_API = "pkg/api"
 MUTEX_PROCS = "{" + ", ".join('"g%d"' % i for i in range(12)) + "}"
 
 
-def mutex_cfg(cfgname, rounds, timeouts, live=True, regrants=1, renew=False, local_wait_timeout=False, evict=False):
+def mutex_cfg(cfgname, rounds, timeouts, live=True, regrants=1, renew=False, local_wait_timeout=False, evict=False, watchdog=False, only_mutex=False):
     sfx = {"A": ("ProcsA", "MembersAB", "HandlesA", "MemOfA", "HandleOfA"),
            "A4": ("ProcsA4", "MembersAB", "HandlesA", "MemOfA", "HandleOfA4"),
            "B": ("ProcsB", "MembersAB", "HandlesB", "MemOfB", "HandleOfB"),
@@ -16,8 +16,12 @@ def mutex_cfg(cfgname, rounds, timeouts, live=True, regrants=1, renew=False, loc
            "B1S": ("ProcsB1", "MembersB1", "HandlesB1S", "MemOfB1S", "HandleOfB1S")}[cfgname]
     txt = ("SPECIFICATION %s\nCONSTANTS\n  Procs <- %s\n  Members <- %s\n  Handles <- %s\n  MemOf <- %s\n  HandleOf <- %s\n"
            "  MaxRounds = %d\n  MaxTimeouts = %d\n  MaxRegrants = %d\n  RenewSession = %s\n  LocalWaitTimeout = %s\n  EvictOnUnlock = %s\n"
+           "  HoldWatchdog = %s\n"
            % (("FairSpec" if live else "Spec",) + sfx + (rounds, timeouts, regrants, "TRUE" if renew else "FALSE",
-                                                          "TRUE" if local_wait_timeout else "FALSE", "TRUE" if evict else "FALSE")))
+                                                          "TRUE" if local_wait_timeout else "FALSE", "TRUE" if evict else "FALSE",
+                                                          "TRUE" if watchdog else "FALSE")))
+    if only_mutex:
+        return txt + "INVARIANTS TypeOK Mutex\n"
     txt += "INVARIANTS TypeOK Mutex NoResidue QuiescentFree\n"
     if live:
         txt += "PROPERTIES Refines Terminates GrantedUnlessTimeout\n"
@@ -32,7 +36,8 @@ MUTEX_TRACE_CFG = ("SPECIFICATION TSpec\nCONSTANTS\n  Procs = %s\nCONSTRAINT HWM
 
 def run(ctx):
     ctx.cov["rule"] = ("traces = recorded concurrent scenarios of the real cluster mutex (goroutines x handles x members on an embedded "
-                       "etcd, short time-outs - also with the long holder and the contenders that time out on the SAME member -, handles obtained per call "
+                       "etcd, short time-outs - also with the long holder and the contenders that time out on the SAME member -, critical sections of 0.5 to 10 "
+                       "times the request time-out (configured per member or set on the handle) under contention from the same and from other members, handles obtained per call "
                        "next to handles kept across calls on one member, a lease re-grant after a failed keep-alive while the lock is held, probes at quiescence) and of the real admin API (concurrent create/update/delete/get "
                        "against one or two members), each validated by TLC as linearisable against the contract; behaviours = "
                        "TLC-generated sequential admin-API histories replayed on the real server; non-trivial = scenarios with "
@@ -95,6 +100,15 @@ def _mc_mutex(ctx):
         ctx.inconclusive("ClusterMutex (E): evicting the handle object at Unlock does not violate Mutex in the model: %s %s" % (r.violated, r.error))
     ctx.notes.append("model (E): Unlock evicting its handle object from the registry violates %s (schedule: g1 holds, g2 waits on the object, g1 unlocks, "
                      "g2 holds, g1 asks for the mutex again and locks)" % r.violated)
+    # (F) arbitrary hold times: a timer armed by Lock (a multiple of the request time-out) that deletes the lock key and releases the
+    # process-local lock while the holder is still inside: the model predicts a Mutex violation - decided on the real code by the
+    # scenarios W of the trace validation (holds of k x the configured time-out under contention from the same and from other members)
+    r = ctx.tlc_mc("ClusterMutex_MC", mutex_cfg("A", 1, 0, live=False, regrants=0, watchdog=True, only_mutex=True), label="mutex (F) a hold-time watchdog releases the mutex under its holder",
+                   expect_ok=False, count=False, timeout=300, workers=1)
+    if r.ok or r.violated != "Mutex":
+        ctx.inconclusive("ClusterMutex (F): a watchdog that releases the mutex under a slow holder does not violate Mutex in the model: %s %s" % (r.violated, r.error))
+    ctx.notes.append("model (F): a watchdog releasing the mutex of a holder whose critical section outlasts a multiple of the time-out violates %s "
+                     "(schedule: g1 holds, the timer fires, a goroutine of any member locks)" % r.violated)
 
 
 def _tv_mutex(ctx):
@@ -102,11 +116,12 @@ def _tv_mutex(ctx):
     nl = 2 if ctx.quick else 8
     nsec = 1 if ctx.quick else 2
     nt, nr = (2, 2) if ctx.quick else (10, 10)
+    nw = 2 if ctx.quick else 8
     tp = ctx.path("c18_mutex.ndjson")
     ev = None
     for attempt in range(2):
         rc, out = ctx.go_test(PKG_CLUSTER, "^TestVerifC18Mutex$", env={"VERIF_OUT": tp, "VERIF_NA": na, "VERIF_NH": nh, "VERIF_NB": nb, "VERIF_NL": nl,
-                                                                      "VERIF_NT": nt, "VERIF_NR": nr, "VERIF_SECONDARIES": nsec}, timeout=1500)
+                                                                      "VERIF_NT": nt, "VERIF_NR": nr, "VERIF_NW": nw, "VERIF_SECONDARIES": nsec}, timeout=1500)
         ev = ctx.read_ndjson(tp)
         if ev and not any(e.get("ev") == "setup-failed" for e in ev) and rc == 0:
             break
@@ -150,6 +165,28 @@ def _tv_mutex(ctx):
     ctx.log("mutex TV: %d scenarios, %d accepted, %d refused Lock calls" % (len(scen), ok, refused_total))
     if refused_total == 0:
         ctx.inconclusive("C18 mutex TV is vacuous for the second clause: no Lock call timed out in any scenario")
+    # scenarios W: "arbitrary hold times" is exercised only if some critical section really lasted longer than a few request
+    # time-outs while a goroutine of ANOTHER member called Lock after that point of the hold (and before its end)
+    longholds = []
+    for sc in scen:
+        if sc["reset"].get("cfg") != "W":
+            continue
+        for i, h in enumerate(sc["all"]):
+            if h.get("ev") != "hold" or not h.get("timeout_ms"):
+                continue
+            t0, t1 = h["t"], h["t"] + h["ms"]
+            late = [e for e in sc["all"] if e.get("ev") == "inv" and e.get("op") == "lock" and e.get("m") != h.get("m")
+                    and t0 + 3 * h["timeout_ms"] < e.get("t", 0) < t1 - 50]
+            pending = [e for e in sc["all"] if e.get("ev") == "inv" and e.get("op") == "lock" and e.get("p") != h.get("p") and e.get("t", 0) < t1]
+            longholds.append({"scen": sc["reset"].get("scen"), "k_x10": h["ms"] * 10 // h["timeout_ms"], "timeout_ms": h["timeout_ms"],
+                              "configured": bool(sc["reset"].get("configured")), "late_other_member_calls": len(late), "contending_calls": len(pending)})
+    ctx.cov["mutex_long_holds"] = longholds
+    for lh in longholds:
+        if lh["k_x10"] > 30 and lh["late_other_member_calls"]:
+            ctx.nontrivial({"long-hold": lh["scen"], "k_x10": lh["k_x10"] // 10 * 10, "configured": lh["configured"]})
+    if nw and not any(lh["k_x10"] > 30 and lh["late_other_member_calls"] and lh["configured"] for lh in longholds):
+        ctx.inconclusive("C18 mutex TV: no critical section outlasted 3 x the member's configured request time-out with another member calling Lock "
+                         "after that point (scenarios W): %s" % jdump(longholds))
     regr = sum(1 for e in ev if e.get("ev") == "fault" and e.get("what") == "re-granted")
     ctx.cov["mutex_lease_regrants_under_a_held_lock"] = regr
     if nl and regr == 0:
@@ -170,9 +207,11 @@ API_GEN_CFG = ("SPECIFICATION GSpec\nCONSTANTS\n  Clients = {\"c0\"}\n  Names = 
                "INVARIANTS VersionCountsSuccesses\n" % API_NAMES)
 
 
-def api_cfg(clients, names, maxops, lock=True, delprefix=False):
+def api_cfg(clients, names, maxops, lock=True, delprefix=False, skipsame=False):
     return ("SPECIFICATION Spec\nCONSTANTS\n  Clients = %s\n  Names = %s\n  Kinds = {\"K1\", \"K2\"}\n  MaxOps = %d\n  UseLock = %s\n  DelPrefix = %s\n"
-            "INVARIANTS TypeOK OneInside\nPROPERTIES Refines\n" % (clients, names, maxops, "TRUE" if lock else "FALSE", "TRUE" if delprefix else "FALSE"))
+            "  SkipSamePut = %s\n"
+            "INVARIANTS TypeOK OneInside\nPROPERTIES Refines\n" % (clients, names, maxops, "TRUE" if lock else "FALSE", "TRUE" if delprefix else "FALSE",
+                                                                   "TRUE" if skipsame else "FALSE"))
 
 
 def _mc_api(ctx):
@@ -196,6 +235,13 @@ def _mc_api(ctx):
     if r.ok or "violated" not in (r.error or ""):
         ctx.inconclusive("AdminApi: the refinement check does not see collateral deletions among nested names: %s" % r.error)
     ctx.notes.append("model: deleting an object by key prefix (names sv < svc) violates the refinement (create sv, create svc, delete sv)")
+    # non-vacuity for mutations that leave the stored content as it is: skipping the write and the bump is not a refinement
+    r = ctx.tlc_mc("AdminApi", api_cfg("{1}", '{"svc"}', 2, skipsame=True), label="admin API skipping a put of identical content", expect_ok=False,
+                   count=False, timeout=300, workers=2)
+    if r.ok or "violated" not in (r.error or ""):
+        ctx.inconclusive("AdminApi: the refinement check does not see a successful update without a version of its own: %s" % r.error)
+    ctx.notes.append("model: skipping the put and the version bump of an update that re-sends the stored spec violates the refinement "
+                     "(create svc, update svc with the same content: 200 with the version of the create)")
 
 
 def _mbt_api(ctx):
@@ -221,6 +267,11 @@ def _mbt_api(ctx):
     for b in behs:
         if any(s.get("st") in ("conflict", "badreq", "other") for s in b):
             ctx.nontrivial({"b": [(s.get("t"), s.get("n"), s.get("k"), s.get("st")) for s in b]})
+    # successful mutations that leave the stored content as it is (an update re-sending the stored spec)
+    same = sum(1 for b in behs for s in b if s.get("same") and s.get("st") == "ok")
+    ctx.cov["api_replay_same_content_updates"] = same
+    if same == 0:
+        ctx.inconclusive("C18 admin-API MBT: no generated history contains a successful update that re-sends the stored content")
     ctx.sample({"kind": "tlc-behaviour", "steps": [{k: s.get(k) for k in ("t", "n", "k", "st", "rver")} for s in behs[0][:8]]})
     for m in [x for x in recs if x.get("k") == "mismatch"]:
         ctx.violation({"kind": "api-replay", "op": m.get("op"), "st": m.get("st"), "got": m.get("got")},
@@ -277,6 +328,14 @@ def _tv_api(ctx):
         if any(s in ("conflict", "badreq", "other") for s in sts):
             ctx.nontrivial({"api-scen": sc["reset"].get("scen"), "sts": sorted(set(sts))})
     ctx.cov["api_reply_classes"] = cls
+    # successful updates / refused creates whose content had been sent (and accepted) for the same name just before
+    resent = {}
+    for e in ev:
+        if e.get("ev") == "ret" and e.get("resent"):
+            resent[e.get("st")] = resent.get(e.get("st"), 0) + 1
+    ctx.cov["api_resent_content_replies"] = resent
+    if not resent.get("ok"):
+        ctx.inconclusive("C18 admin-API TV is vacuous for mutations that leave the content unchanged: no successful update re-sent an accepted content")
     ctx.sample({"kind": "api-scenario", "events": [{k: e.get(k) for k in ("ev", "p", "op", "n", "k", "st", "ver")} for e in scen[0]["events"][:10]]})
     ctx.log("admin API TV: %d scenarios, %d accepted, replies %s" % (len(scen), ok, cls))
     if not cls.get("conflict") or not cls.get("ok"):
